@@ -100,6 +100,16 @@ def check_prefixes(rep, drv, case, mode, data, with_schema, cuts):
                 rep.fail('prefix-closed-stream-' + '-'.join(o[-2:]),
                          'stream (%s) closed at cut %d of %d -> %s' % ('seekable' if seekable else 'non-seekable', k, len(data), o),
                          dict(base, seekable=seekable))
+            # (c') a seekable adapter that answers None to EVERY read - a zero-octet one included - while it has nothing: still
+            # open -> underruns only; closed afterwards -> end of stream
+            if seekable:
+                s = streams.GrowingStream(seekable=True, none_on_zero=True)
+                s.feed(pre)
+                o = stream_outcome(dec, s, schema, max_steps=4)
+                if any(x != 'U' for x in o):
+                    rep.fail('prefix-open-stream-none-on-zero-' + '-'.join(o[-2:]),
+                             'open stream answering None to read(0), holding a proper prefix (cut %d of %d) -> %s' % (k, len(data), o),
+                             dict(base, seekable=True, none_on_zero=True))
             # (c) the same stream still open: only underruns
             s = streams.GrowingStream(seekable=seekable)
             s.feed(pre)
